@@ -247,8 +247,16 @@ func Canon(d Doc) Doc {
 	return out
 }
 
+// NoData stands for a point that carries no data at all (zero-length Data: the
+// point store supports it, the HTTP layer never produces it).  Use it only in
+// batches the model rejects: the reference model has no notion of such a point.
+var NoData = Doc{"\x00no-data": true}
+
 // Encode marshals a document as the HTTP layer does.
 func Encode(d Doc) []byte {
+	if _, nd := d["\x00no-data"]; nd {
+		return nil
+	}
 	b, err := msgpack.Marshal(d)
 	if err != nil {
 		panic(err)
